@@ -70,14 +70,14 @@ func TestZZBoundedC15(t *testing.T) {
 							if strings.Contains(out, "x") {
 								class := "other"
 								switch {
+								case strings.Contains(g2, "/*") || strings.Contains(g1, "/*"):
+									class = "comment-in-gap"
 								case strings.ContainsAny(pw, " "):
 									class = "password-contains-whitespace"
 								case g2 == "" && strings.HasPrefix(base, "SET"):
 									class = "no-space-after-equals"
 								case g2 == "" && strings.HasPrefix(base, "CREATE"):
 									class = "no-space-after-PASSWORD"
-								case strings.Contains(g2, "/*") || strings.Contains(g1, "/*"):
-									class = "comment-in-gap"
 								case strings.ContainsAny(pw, "\"'\\"):
 									class = "quote-or-backslash-in-password"
 								case strings.Contains(pw, ";"):
